@@ -2,6 +2,7 @@
 package c16
 
 import (
+	"github.com/DemoHn/Zn/pkg/common"
 	"strings"
 
 	"github.com/DemoHn/Zn/pkg/exec"
@@ -23,8 +24,17 @@ func exe(it *exec.Interpreter, src string, in r.ElementMap) (o outcome) {
 	return
 }
 
+// netLib: the library classes of pkg/common (HTTP请求 / HTTP响应), registered
+// the way stdlib/http registers them (that package does not compile here).
+func netLib() *r.Library {
+	lib := r.NewLibrary("@网络")
+	lib.RegisterClass("HTTP请求", common.CLASS_HttpRequest)
+	lib.RegisterClass("HTTP响应", common.CLASS_HttpResponse)
+	return lib
+}
+
 func newIt() *exec.Interpreter {
-	return exec.NewInterpreter("v").SetExternalLibs([]*r.Library{libjson.Export()})
+	return exec.NewInterpreter("v").SetExternalLibs([]*r.Library{libjson.Export(), netLib()})
 }
 
 // polluters: every mutating operation applicable to predefined / global values
@@ -40,6 +50,9 @@ var polluters = []string{
 	"输入A\n以“12*^3”（转换数值）\n输出 1",
 	"输入A\n抛出异常：“先前的”！",
 	"输入A\n令L = 【真，假，空】\n以L（后增：A）\n输出 L",
+	"导入《@网络》\n输入A\n令O = （新建HTTP请求：“GET”、“http://x”）\n以O之头部（写入：“键”、A）\n输出 1",
+	"导入《@网络》\n输入A\n如何新建HTTP请求？\n    输入M、U\n    其方法 = “被替换”\n输出 1",
+	"导入《@网络》\n输入A\n如何新建HTTP响应？\n    其状态码 = A\n输出 1",
 }
 
 type probe struct {
@@ -65,6 +78,15 @@ var probes = []probe{
 	{"输出 甲", func(o outcome) bool { return o.err != nil }, "names declared by an earlier run are not visible"},
 	{"输出（乙）", func(o outcome) bool { return o.err != nil }, "methods declared by an earlier run are not visible"},
 	{"输出（解析JSON：“1”）", func(o outcome) bool { return o.err != nil }, "libraries imported by an earlier run are not imported here"},
+	{"导入《@网络》\n令O = （新建HTTP请求：“POST”、“http://y”）\n输出 【O之方法，O之URL，O之头部之数目】", func(o outcome) bool {
+		a, ok := o.res.(*value.Array)
+		if o.err != nil || !ok || a.Length() != 3 {
+			return false
+		}
+		m, ok1 := a.GetValue()[0].(*value.String)
+		u, ok2 := a.GetValue()[1].(*value.String)
+		return ok1 && ok2 && m.GetValue() == "POST" && u.GetValue() == "http://y" && isNum(a.GetValue()[2], 0)
+	}, "a library type constructs its objects as documented (constructor and default properties pristine)"},
 	{"令L = 【真，假，空】\n输出 L#3", func(o outcome) bool { _, ok := o.res.(*value.Null); return o.err == nil && ok }, "predefined 真 假 空 are pristine"},
 }
 
